@@ -207,7 +207,7 @@ class Path:
 
 class PathSim:
     def __init__(self, F, bound=4096, havoc_loops=True, start=None, region=None,
-                 call_hook=None, max_visits=1, watch_reads=()):
+                 call_hook=None, max_visits=1, watch_reads=(), entry_values=False):
         self.F = F
         self.cfg = cfg_of(F)
         self.bound = bound
@@ -217,6 +217,7 @@ class PathSim:
         self.call_hook = call_hook
         self.max_visits = max_visits
         self.watch_reads = set(watch_reads)
+        self.entry_values = entry_values     # also explore each loop's first iteration with the values its variables have on entry
         self.paths = []
         self._loop_havoc = None
 
@@ -264,7 +265,7 @@ class PathSim:
         if len(self.paths) > self.bound:
             raise PathBoundExceeded("%s: more than %d paths" % (self.F.q, self.bound))
 
-    def _walk(self, b, st, blocks, visits):
+    def _walk(self, b, st, blocks, visits, _skip_fork=False):
         F = self.F
         if self.region is not None and b not in self.region:
             st.events.append(Event("end", (b, 0), None, extra=("leave", b)))
@@ -281,8 +282,11 @@ class PathSim:
         blk = F.blocks[b]
         if self.havoc_loops and b in self.cfg.loops():
             hv = self.loop_havoc().get(b, ())
-            for v in hv:
-                if v in st.env or True:
+            if self.entry_values and hv and not _skip_fork:
+                # first iteration: the loop-carried variables still hold their entry values
+                self._walk(b, st.fork(), blocks[:-1], {k: v for k, v in visits.items() if k != b} if cnt == 0 else dict(visits, **{b: cnt}), _skip_fork=True)
+            if not _skip_fork or not self.entry_values:
+                for v in hv:
                     st.env[v] = ("phi", v, b, cnt)
         if b == F.exit:
             self._emit_path(st, blocks, "return", st.retval)
